@@ -25,10 +25,10 @@ type effSummary struct {
 	writesDeep  []bool // the write goes through a pointer loaded from the parameter's object (its contents' pointees)
 	paramSites  [][]writeSite
 	globals     map[*ssa.Global][]writeSite
-	retAlias    []int  // result aliases parameter (or -1)
+	retAlias    []int         // result aliases parameter (or -1)
 	retGlobal   []*ssa.Global // result may alias (contain pointers into) this package-level variable
-	retFresh    []bool // result is a fresh allocation on every path
-	retains     []bool // parameter's memory is stored into another object (heap/global/returned)
+	retFresh    []bool        // result is a fresh allocation on every path
+	retains     []bool        // parameter's memory is stored into another object (heap/global/returned)
 	retainSites [][]writeSite
 }
 
